@@ -202,6 +202,8 @@ def check_named(case):
     sizes = [int(m.sum()) for m in masks.values()]
     if case.get("w") is not None:
         tags.add("weighted")
+        if max(case["w"]) < 1e-6:
+            tags.add("tiny_weights")
         if 1 in sizes:
             tags.add("weighted_singleton_group")
     if 1 in sizes:
@@ -431,6 +433,8 @@ def _dataset(draw, max_n=14):
         yp = [0] * n
     w = draw(st.one_of(st.none(), st.lists(gen.int_weights.map(float), min_size=n, max_size=n),
                        st.lists(gen.real_weights, min_size=n, max_size=n)))
+    if w is not None and draw(st.integers(0, 5)) == 0:
+        w = [x * 1e-10 for x in w]  # positive weights on a tiny scale (e.g. normalised densities)
     return {
         "y_true": yt, "y_pred": yp, "groups": groups, "w": w,
         "kind": draw(st.sampled_from(["list", "ndarray", "series"])),
